@@ -58,7 +58,7 @@ def run(chk, cases_in=None):
     try:
         if cases_in is None:
             g = smt.grid(chk.seed, TIERS[chk.tier])
-            cases = [{"id": i + 1, "fam": f, "term": t, "route3": i % 3 == 0} for i, (f, t) in enumerate(g)]
+            cases = [{"id": i + 1, "fam": f, "term": t, "route3": i % 3 == 0 or f in ("two-var-nested", "re-range-special")} for i, (f, t) in enumerate(g)]
         else:
             cases = cases_in
         chk.cov["grid_terms"] = len(cases)
